@@ -21,6 +21,9 @@ type strVariant struct {
 	normalize bool
 	table     *core.Table
 	tableName string
+	// every [256]bool table the appender consults (tail scan, slow path): all must satisfy the variant's requirement
+	tables    []*core.Table
+	tablePos  map[string]token.Pos
 }
 
 // stringVariants derives, from the body of encoder.AppendString, which
@@ -98,21 +101,34 @@ func stringVariants(rc *core.RC) []strVariant {
 	for i := range out {
 		v := &out[i]
 		names := map[string]bool{}
+		v.tablePos = map[string]token.Pos{}
 		ast.Inspect(v.fn.Body, func(n ast.Node) bool {
 			if ix, ok := n.(*ast.IndexExpr); ok {
 				if obj, ok := core.ObjOf(info, ix.X).(*types.Var); ok && obj.Parent() == pk.Types.Scope() {
 					if a, ok := obj.Type().Underlying().(*types.Array); ok && a.Len() == 256 {
-						names[obj.Name()] = true
+						if b, ok := a.Elem().Underlying().(*types.Basic); ok && b.Kind() == types.Bool {
+							names[obj.Name()] = true
+							if _, seen := v.tablePos[obj.Name()]; !seen {
+								v.tablePos[obj.Name()] = ix.Pos()
+							}
+						}
 					}
 				}
 			}
 			return true
 		})
-		if len(names) == 1 {
-			for n := range names {
-				v.tableName = n
-				v.table = core.EvalTable(pk, n)
+		var sorted []string
+		for n := range names {
+			sorted = append(sorted, n)
+		}
+		sort.Strings(sorted)
+		for _, n := range sorted {
+			if t := core.EvalTable(pk, n); t != nil {
+				v.tables = append(v.tables, t)
 			}
+		}
+		if len(v.tables) > 0 {
+			v.table, v.tableName = v.tables[0], v.tables[0].Name
 		}
 	}
 	return out
@@ -181,27 +197,34 @@ func c17r1(rc *core.RC) {
 		fn := "encoder." + v.name
 		rc.Touch(fn)
 		info := p.Info(v.fn)
-		if v.table == nil || v.table.Opaque {
+		if v.table == nil {
 			rc.Unknown(fn+"/table", v.fn.Pos(), "could not identify a constant [256]bool escape table")
 			continue
 		}
-		// (a) table contents
-		for b := 0; b < 256; b++ {
-			want := b < 0x20 || b == '"' || b == '\\'
-			if b == '<' || b == '>' || b == '&' {
-				want = v.html
+		// (a) contents of every table the appender consults
+		for _, tb := range v.tables {
+			if tb.Opaque {
+				rc.Unknown(fn+"/table "+tb.Name, tb.Pos, "escape table is not constant")
+				continue
 			}
-			if b >= 0x80 {
-				want = v.normalize
-			}
-			key := fmt.Sprintf("%s/%s[0x%02x]", fn, v.tableName, b)
-			if v.table.Bool(b) == want {
-				rc.OK(key, v.table.Pos, "marked=%v", want)
-			} else if b >= 0x80 && !v.normalize {
-				// non-normalising variants may mark high bytes harmlessly (they are copied through by the slow path)
-				rc.OK(key, v.table.Pos, "high byte marked in non-normalising variant (slow path copies it)")
-			} else {
-				rc.Bad(key, v.table.Pos, "table %s marks byte 0x%02x as %v, the %s variant (html=%v normalize=%v) requires %v", v.tableName, b, v.table.Bool(b), v.name, v.html, v.normalize, want)
+			for b := 0; b < 256; b++ {
+				want := b < 0x20 || b == '"' || b == '\\'
+				if b == '<' || b == '>' || b == '&' {
+					want = v.html
+				}
+				if b >= 0x80 {
+					want = v.normalize
+				}
+				key := fmt.Sprintf("%s/%s[0x%02x]", fn, tb.Name, b)
+				pos := v.tablePos[tb.Name]
+				if tb.Bool(b) == want {
+					rc.OK(key, pos, "marked=%v", want)
+				} else if b >= 0x80 && !v.normalize {
+					// non-normalising variants may mark high bytes harmlessly (the slow path copies them through)
+					rc.OK(key, pos, "high byte marked in non-normalising variant (slow path copies it)")
+				} else {
+					rc.Bad(key, pos, "%s consults table %s, which marks byte 0x%02x as %v; the %s variant (html=%v normalize=%v) requires %v", v.name, tb.Name, b, tb.Bool(b), v.name, v.html, v.normalize, want)
+				}
 			}
 		}
 		// (b) SWAR mask terms
